@@ -399,14 +399,30 @@ func (np *netPlan) onWrite(n *simwire.Net, f *simwire.Frame) {
 		mac := np.peerMAC(ip)
 		opts := pktcodec.IPOpts{ID: uint16(mix64(np.salt, uint64(f.Idx))), TTL: np.ttl(ip)}
 		if np.variety && r.pct("ipopt", 15) {
-			opts.Options = []byte{1, 1, 1, 1} // four NOPs
+			// 4..40 bytes of IP options (NOPs, optionally a record-route option): the headers of a reply
+			// may end anywhere up to byte 14+60+60 of the frame
+			n := []int{4, 4, 8, 20, 24, 36, 40}[r.n("ipoptlen", 7)]
+			opts.Options = make([]byte, n)
+			for i := range opts.Options {
+				opts.Options[i] = 1
+			}
+			if n >= 8 && r.pct("rr", 50) {
+				opts.Options[0], opts.Options[1], opts.Options[2] = 7, byte(n), 4 // record route, empty
+				for i := 3; i < n; i++ {
+					opts.Options[i] = 0
+				}
+			}
 		}
 		switch {
 		case p.ICMP != nil && np.sh.Kind == "icmp":
 			if p.ICMP.Type != 8 {
 				return // only echo requests are answered by this host model
 			}
-			body := pktcodec.EncodeICMP(0, 0, p.ICMP.Rest, p.ICMP.Payload)
+			pl := p.ICMP.Payload
+			if np.variety && r.pct("longpayload", 10) {
+				pl = append(append([]byte{}, pl...), make([]byte, 64+r.n("longpayloadn", 1200))...)
+			}
+			body := pktcodec.EncodeICMP(0, 0, p.ICMP.Rest, pl)
 			reply = np.wrap(mac, pktcodec.EncodeIPv4(p.IP.Dst, p.IP.Src, pktcodec.ProtoICMP, body, opts))
 			tag = "echo-reply"
 		case p.UDP != nil && np.sh.Kind == "udp":
